@@ -599,6 +599,15 @@ def gen_cases(seed, count, exhaustive=True):
     for h in range(256):
         cases.append(("str-escape", t_str(bytes([h])), ("'\\x%02X'" % h).encode()))
         cases.append(("str-escape", t_str(b"a" + bytes([h]) + b"z"), ("'a\\x%02xz'" % h).encode()))
+    # a backslash in front of a NON-ASCII character whose code point equals an escape letter modulo 256 (or modulo 128): the
+    # decoding table is indexed by the character, not by its low byte -- the character is no escape, backslash and character stay
+    for c in b"ntr0abfve\\'\"xNTX":
+        for k in (1, 2, 4, 0x1F4, 0x20, 0x100):
+            for cp in (c + 256 * k, c + 128 * (2 * k + 1)):
+                if 0xD800 <= cp <= 0xDFFF or cp > 0x10FFFF:
+                    continue
+                ch = chr(cp).encode("utf-8")
+                cases.append(("str-escape-nonascii", t_str(b"a\\" + ch + b"b"), b"'a\\" + ch + b"b'"))
     for src in [b"'abc", b"'abc\\", b"'\\x", b"'\\x4", b"'a\\", b"'\xff'", b"'\xc3'", b"'\xed\xa0\x80'", b"'a'''"]:
         cases.append(("raw", "-", src))
     cases += escape_cases_systematic()
